@@ -35,6 +35,7 @@ pub enum FK {
     WrongDocument,
     UnionReorder,
     UnionMismatch,
+    NumberOutOfRange,
     ByteFlip,
     // parameters
     ParamDrop,
@@ -72,6 +73,7 @@ impl FK {
             FK::WrongDocument => "wrong_document",
             FK::UnionReorder => "union_reorder",
             FK::UnionMismatch => "union_mismatch",
+            FK::NumberOutOfRange => "number_out_of_range",
             FK::ByteFlip => "byte_flip",
             FK::ParamDrop => "param_drop",
             FK::ParamDup => "param_dup",
@@ -218,6 +220,7 @@ fn fault_counter(k: FK) -> &'static str {
         FK::WrongDocument => "fault.wrong_document_fired",
         FK::UnionReorder => "fault.union_reorder_fired",
         FK::UnionMismatch => "fault.union_mismatch_fired",
+        FK::NumberOutOfRange => "fault.number_out_of_range_fired",
         FK::ByteFlip => "fault.byte_flip_fired",
         FK::ParamDrop => "fault.param_drop_fired",
         FK::ParamDup => "fault.param_dup_fired",
@@ -573,6 +576,103 @@ pub fn tamper_union(t: &mut Tape, ty: &Ty, doc: &mut Value, alpha: &str, mismatc
     Some((raw, format!("{}, {} (type={:?} member={:?})", what, if value_first { "value first" } else { "tag first" }, new_tag, new_member)))
 }
 
+/// Replaces one `integer` / `safelong` leaf of the document (found by walking the IR type) by an
+/// integer just outside, or far outside, the type's range. Returns the raw text for the placeholder.
+pub fn number_out_of_range(t: &mut Tape, ty: &Ty, doc: &mut Value) -> Option<(String, String)> {
+    fn walk(ty: &Ty, v: &Value, path: &mut Vec<PathEl>, out: &mut Vec<(Vec<PathEl>, Prim)>) {
+        let ir = ir();
+        match ty {
+            Ty::Prim(p @ (Prim::Integer | Prim::Safelong)) => {
+                if v.is_number() {
+                    out.push((path.clone(), *p));
+                }
+            }
+            Ty::Prim(_) => {}
+            Ty::Opt(i) => {
+                if !v.is_null() {
+                    walk(i, v, path, out)
+                }
+            }
+            Ty::List(i) | Ty::Set(i) => {
+                if let Value::Array(a) = v {
+                    for (idx, x) in a.iter().enumerate() {
+                        path.push(PathEl::Idx(idx));
+                        walk(i, x, path, out);
+                        path.pop();
+                    }
+                }
+            }
+            Ty::Map(_, vt) => {
+                if let Value::Object(m) = v {
+                    for (k, x) in m {
+                        path.push(PathEl::Key(k.clone()));
+                        walk(vt, x, path, out);
+                        path.pop();
+                    }
+                }
+            }
+            Ty::Ref(n) => match &ir.defs[n] {
+                Def::Alias(i, _) => walk(i, v, path, out),
+                Def::Enum(_) => {}
+                Def::Object(fields) => {
+                    if let Value::Object(m) = v {
+                        for (f, fty) in fields {
+                            if let Some(x) = m.get(f) {
+                                path.push(PathEl::Key(f.clone()));
+                                walk(fty, x, path, out);
+                                path.pop();
+                            }
+                        }
+                    }
+                }
+                Def::Union(fields) => {
+                    if let Value::Object(m) = v {
+                        if let Some(Value::String(tag)) = m.get("type") {
+                            if let Some((f, fty)) = fields.iter().find(|(f, _)| f == tag) {
+                                if let Some(x) = m.get(f) {
+                                    path.push(PathEl::Key(f.clone()));
+                                    walk(fty, x, path, out);
+                                    path.pop();
+                                }
+                            }
+                        }
+                    }
+                }
+            },
+        }
+    }
+    let mut out = Vec::new();
+    walk(ty, doc, &mut Vec::new(), &mut out);
+    if out.is_empty() {
+        return None;
+    }
+    let (path, prim) = t.pick(&out).clone();
+    let raw: &str = match prim {
+        Prim::Integer => *t.pick(&["2147483648", "-2147483649", "4294967296", "9007199254740992", "-9223372036854775808", "9223372036854775807", "18446744073709551615", "123456789012345678901234567890"]),
+        _ => *t.pick(&[
+            "9007199254740992",
+            "-9007199254740992",
+            "9007199254740993",
+            "-9007199254740993",
+            "9223372036854775807",
+            "-9223372036854775808",
+            "-9223372036854775807",
+            "18446744073709551615",
+            "-9223372036854775809",
+            "123456789012345678901234567890",
+        ]),
+    };
+    let mut cur = doc;
+    for el in &path {
+        cur = match el {
+            PathEl::Idx(i) => &mut cur[*i],
+            PathEl::Key(k) => &mut cur[k.as_str()],
+        };
+    }
+    *cur = Value::String(RAW_PLACEHOLDER.into());
+    Some((raw.to_string(), format!("{:?} leaf := {}", prim, raw)))
+}
+
 /// Puts `raw` where the placeholder string stands.
 pub fn substitute_raw(bytes: Vec<u8>, raw: &str) -> Vec<u8> {
     let needle = format!("\"{}\"", RAW_PLACEHOLDER);
@@ -604,7 +704,8 @@ pub fn confuse_json(t: &mut Tape, doc: &mut Value, text: &str) -> bool {
         match v {
             Value::Number(_) | Value::Bool(_) => {
                 if *k == 0 {
-                    *v = Value::String(text.to_string());
+                    // an empty text stands for "the value's own spelling, as a string": "1.5", "true"
+                    *v = Value::String(if text.is_empty() { v.to_string() } else { text.to_string() });
                     return true;
                 }
                 *k -= 1;
@@ -889,6 +990,29 @@ fn param_faults(ctx: &Ctx, plan: &mut CallPlan, ep: &EpMeta, wire: &mut WireReq,
                             }
                         }
                     }
+                } else if plan.want(ctx, FK::ParamOpaque) {
+                    // percent escapes that are not UTF-8 (no encoder of real strings produces them);
+                    // the code decodes them lossily, on which the statement is silent for strings
+                    let pos = ep
+                        .segs
+                        .iter()
+                        .position(|s| matches!(s, crate::ir::Seg::Param(n) if n == &a.name));
+                    if let Some(pos) = pos {
+                        if pos + 1 < segs.len() {
+                            let esc = ctx.with_tape(|t| *t.pick(&["%FF", "%C3", "%80", "%E2%82", "%F0%9F%98", "%ED%A0%80"]));
+                            // (a declared-safe argument is recorded as it decodes: no canary in it)
+                            let mark = if a.declared_safe() { "x".to_string() } else { alpha.clone() };
+                            segs[pos + 1] = if ctx.chance(1, 2) { format!("{}{}", esc, mark) } else { format!("{}{}", mark, esc) };
+                            let stringy = matches!(
+                                match irx.dealias(&a.ty) {
+                                    Ty::Opt(i) | Ty::List(i) | Ty::Set(i) => irx.dealias(i),
+                                    o => o,
+                                },
+                                Ty::Prim(Prim::String) | Ty::Prim(Prim::Any) | Ty::Prim(Prim::Binary)
+                            );
+                            fire(ctx, plan, fired, FK::ParamOpaque, format!("path {}", a.name), if stringy { Expect::DontCare } else { reject(&a.name) });
+                        }
+                    }
                 }
             }
             PKind::Query => {
@@ -915,7 +1039,7 @@ fn param_faults(ctx: &Ctx, plan: &mut CallPlan, ep: &EpMeta, wire: &mut WireReq,
                     }
                 } else if plan.want(ctx, FK::ParamOpaque) {
                     // invalid UTF-8 percent escapes: decoded lossily by the code; statement is silent
-                    let v = "%FF%FEx".to_string();
+                    let v = format!("%FF%FE{}", if a.declared_safe() { "x" } else { alpha.as_str() });
                     if present > 0 {
                         let i = query.iter().position(|(k, _)| *k == key).unwrap();
                         query[i].1 = v;
@@ -1032,7 +1156,8 @@ pub fn apply_request_faults(
         if still_json && want(plan, FK::TypeConfusion) {
             if let Ok(mut v) = serde_json::from_slice::<Value>(&bytes) {
                 if serde_json::to_vec(&v).ok().as_deref() == Some(&bytes[..]) {
-                    let text = format!("tc{}", &plan.alpha);
+                    // a foreign text, or the number's / boolean's own spelling in quotes
+                    let text = if ctx.chance(1, 3) { String::new() } else { format!("tc{}", &plan.alpha) };
                     if ctx.with_tape(|t| confuse_json(t, &mut v, &text)) {
                         bytes = serde_json::to_vec(&v).unwrap();
                         fire(ctx, plan, &mut fired, FK::TypeConfusion, text, Expect::Reject { code: "InvalidArgument", param: None });
@@ -1040,7 +1165,15 @@ pub fn apply_request_faults(
                 }
             }
         }
-        if still_json && !fired.iter().any(|f| matches!(f.kind, FK::TypeConfusion)) {
+        if still_json && !fired.iter().any(|f| matches!(f.kind, FK::TypeConfusion)) && want(plan, FK::NumberOutOfRange) {
+            if let (Some(ty), Ok(mut v)) = (&body_ty, serde_json::from_slice::<Value>(&bytes)) {
+                if let Some((raw, label)) = ctx.with_tape(|t| number_out_of_range(t, ty, &mut v)) {
+                    bytes = substitute_raw(serde_json::to_vec(&v).unwrap(), &raw);
+                    fire(ctx, plan, &mut fired, FK::NumberOutOfRange, label, Expect::Reject { code: "InvalidArgument", param: None });
+                }
+            }
+        }
+        if still_json && !fired.iter().any(|f| matches!(f.kind, FK::TypeConfusion | FK::NumberOutOfRange)) {
             let kind = if want(plan, FK::UnionMismatch) {
                 Some(FK::UnionMismatch)
             } else if want(plan, FK::UnionReorder) {
@@ -1141,7 +1274,7 @@ pub fn apply_request_faults(
         }
     }
     let json_now = wire.header("content-type") == Some(JSON_CT);
-    if json_now && !sent.streaming && !fired.iter().any(|f| matches!(f.kind, FK::UnknownField | FK::TypeConfusion | FK::UnionMismatch | FK::UnionReorder)) && want(plan, FK::WrongDocument) {
+    if json_now && !sent.streaming && !fired.iter().any(|f| matches!(f.kind, FK::UnknownField | FK::TypeConfusion | FK::UnionMismatch | FK::UnionReorder | FK::NumberOutOfRange)) && want(plan, FK::WrongDocument) {
         // a different, perfectly well-formed document
         let d: &[u8] = ctx.with_tape(|t| *t.pick(&[&b"null"[..], b"{}", b"[]", b"0", b"\"x\"", b"true", b"[null]", b"{\"type\":\"x\"}", b"1e999", b" null "]));
         bytes = d.to_vec();
@@ -1282,7 +1415,15 @@ pub fn apply_response_faults(
                 }
             }
         }
-        {
+        if want(plan, FK::NumberOutOfRange) {
+            if let (Some(ty), Ok(mut v)) = (&ret_ty, serde_json::from_slice::<Value>(&bytes)) {
+                if let Some((raw, label)) = ctx.with_tape(|t| number_out_of_range(t, ty, &mut v)) {
+                    bytes = substitute_raw(serde_json::to_vec(&v).unwrap(), &raw);
+                    fire(ctx, plan, &mut fired, FK::NumberOutOfRange, label, Expect::Reject { code: "InvalidArgument", param: None });
+                }
+            }
+        }
+        if !fired.iter().any(|f| f.kind == FK::NumberOutOfRange) {
             let kind = if want(plan, FK::UnionMismatch) {
                 Some(FK::UnionMismatch)
             } else if want(plan, FK::UnionReorder) {
@@ -1304,7 +1445,7 @@ pub fn apply_response_faults(
         if want(plan, FK::TypeConfusion) {
             if let Ok(mut v) = serde_json::from_slice::<Value>(&bytes) {
                 if serde_json::to_vec(&v).ok().as_deref() == Some(&bytes[..]) {
-                    let text = format!("tc{}", &plan.alpha);
+                    let text = if ctx.chance(1, 3) { String::new() } else { format!("tc{}", &plan.alpha) };
                     if ctx.with_tape(|t| confuse_json(t, &mut v, &text)) {
                         bytes = serde_json::to_vec(&v).unwrap();
                         fire(ctx, plan, &mut fired, FK::TypeConfusion, text, Expect::Judge);
@@ -1323,7 +1464,7 @@ pub fn apply_response_faults(
             fire(ctx, plan, &mut fired, FK::TrailingWs, "2".into(), Expect::Transparent);
         }
     }
-    if is_json && !resp.streaming && wire.status != 204 && !fired.iter().any(|f| matches!(f.kind, FK::UnknownField | FK::TypeConfusion | FK::UnionMismatch | FK::UnionReorder)) && want(plan, FK::WrongDocument) {
+    if is_json && !resp.streaming && wire.status != 204 && !fired.iter().any(|f| matches!(f.kind, FK::UnknownField | FK::TypeConfusion | FK::UnionMismatch | FK::UnionReorder | FK::NumberOutOfRange)) && want(plan, FK::WrongDocument) {
         let d: &[u8] = ctx.with_tape(|t| *t.pick(&[&b"null"[..], b"{}", b"[]", b"0", b"\"x\"", b"true", b"[null]", b"{\"type\":\"x\"}", b"1e999", b" null "]));
         bytes = d.to_vec();
         fire(ctx, plan, &mut fired, FK::WrongDocument, String::from_utf8_lossy(d).to_string(), Expect::Judge);
